@@ -132,7 +132,8 @@ class VersionRange:
 
         version_class = range_class.version_class
 
-        constraints = remove_spaces(constraints)
+        # Leading and trailing pipes are not significant.
+        constraints = remove_spaces(constraints).strip("|")
         if not constraints:
             raise ValueError(f"{vers!r} specifies no version range constraints.")
 
@@ -147,12 +148,13 @@ class VersionRange:
 
         parsed_constraints = []
 
-        constraints = constraints.strip("|")
         for const in constraints.split("|"):
             constraint = VersionConstraint.from_string(
                 string=const,
                 version_class=version_class,
             )
+            if constraint.is_star():
+                raise ValueError(f"{vers!r} contains an invalid '*' constraint.")
             parsed_constraints.append(constraint)
 
         # Constraints are sorted by version**. The canonical ordering is the versions
